@@ -11,7 +11,7 @@ import ParryModel.C04.Model
   start cell, per-cell step, grid walk (DDA) with the code's own exits; fuel = `nrows + ncols` (each iteration of the
   Rust `loop` returns, breaks, or moves one cell further in the direction of the ray, so it runs at most
   `(nrows − 1) + (ncols − 1) + 1` times).  **Corrected behaviour** on two points, see the docstrings of
-  `HeightField3.castLocalRayAndGetNormal` and `HeightField3.walk`.
+  `HeightField3.castLocalRayAndGetNormal` and `HeightField3.nextCell`.
 
 Literal transliteration (same branch order, comparison strictness, floating-point operation order).
 -/
@@ -153,39 +153,46 @@ def faceId (h : HeightField3 K) (i j : Nat) (left : Bool) (fid : Nat) : Nat :=
   let tid := if left then tid else tid + numTriangles / 2
   if fid = 0 then tid else tid + numTriangles
 
-/-- the `loop` of the 3-D cast, started in cell `(ci, cj)`; `maxT = min(far clip parameter, max_toi)`, `big = Real::MAX`.
+/-- "Find the next cell to cast the ray on": the tail of one iteration of the `loop` of the 3-D cast, in cell `(ci, cj)`;
+`none` = one of the `break`s.  `maxT = min(far clip parameter, max_toi)`, `big = Real::MAX`.
 **Corrected behaviour** (fixes/C04-heightfield-ray-walk-negative-toi.diff): the times `toi_x`, `toi_z` at which the ray
 reaches the next cell boundary are clamped at 0.  On the pinned tree a ray whose origin is within rounding of a cell boundary
 (start cell = the cell beyond the boundary) gets a slightly negative `toi_x`, fails the `toi_x >= 0.0` test and then never
 steps along `x` (it walks along `z` or stops): hits are missed. -/
+def nextCell (big : K) (h : HeightField3 K) (ray : Ray3 K) (maxT : K) (ci cj : Nat) : Option (Nat × Nat) :=
+  let tx : K × Bool :=
+    if 0 < ray.d.x then ((h.xAt (cj + 1) - ray.o.x) / ray.d.x, true)
+    else if ray.d.x < 0 then ((h.xAt cj - ray.o.x) / ray.d.x, false)
+    else (big, false)
+  let tz : K × Bool :=
+    if 0 < ray.d.z then ((h.zAt (ci + 1) - ray.o.z) / ray.d.z, true)
+    else if ray.d.z < 0 then ((h.zAt ci - ray.o.z) / ray.d.z, false)
+    else (big, false)
+  let toiX := nmax tx.1 0
+  let toiZ := nmax tz.1 0
+  if maxT < toiX ∧ maxT < toiZ then none else
+  let next : Option (Nat × Nat) :=
+    if 0 ≤ toiX ∧ toiX < toiZ then
+      (if tx.2 then some (ci, cj + 1) else if 0 < cj then some (ci, cj - 1) else none)
+    else if 0 ≤ toiZ then
+      (if tz.2 then some (ci + 1, cj) else if 0 < ci then some (ci - 1, cj) else none)
+    else none
+  match next with
+  | none => none
+  | some (ni, nj) => if h.nr - 1 ≤ ni ∨ h.nc - 1 ≤ nj then none else some (ni, nj)
+
+/-- the `loop` of the 3-D cast, started in cell `(ci, cj)`: cast the two triangles of the cell (`hfCellCast`), return the
+nearer hit with its feature id converted, otherwise go on to `nextCell`. -/
 def walk (big : K) (h : HeightField3 K) (ray : Ray3 K) (maxToi : K) (solid : Bool) (maxT : K) :
     Nat → Nat × Nat → Option (Hit3 K)
   | 0, _ => none
   | fuel + 1, (ci, cj) =>
-    let tris := h.trianglesAt ci cj
-    match hfCellCast tris.1 tris.2 ray maxToi solid with
+    match hfCellCast (h.trianglesAt ci cj).1 (h.trianglesAt ci cj).2 ray maxToi solid with
     | some (left, hit) => some { hit with fkind := 0, fidx := h.faceId ci cj left hit.fidx }
     | none =>
-      let tx : K × Bool :=
-        if 0 < ray.d.x then ((h.xAt (cj + 1) - ray.o.x) / ray.d.x, true)
-        else if ray.d.x < 0 then ((h.xAt cj - ray.o.x) / ray.d.x, false)
-        else (big, false)
-      let tz : K × Bool :=
-        if 0 < ray.d.z then ((h.zAt (ci + 1) - ray.o.z) / ray.d.z, true)
-        else if ray.d.z < 0 then ((h.zAt ci - ray.o.z) / ray.d.z, false)
-        else (big, false)
-      let toiX := nmax tx.1 0
-      let toiZ := nmax tz.1 0
-      if maxT < toiX ∧ maxT < toiZ then none else
-      let next : Option (Nat × Nat) :=
-        if 0 ≤ toiX ∧ toiX < toiZ then
-          (if tx.2 then some (ci, cj + 1) else if 0 < cj then some (ci, cj - 1) else none)
-        else if 0 ≤ toiZ then
-          (if tz.2 then some (ci + 1, cj) else if 0 < ci then some (ci - 1, cj) else none)
-        else none
-      match next with
+      match h.nextCell big ray maxT ci cj with
       | none => none
-      | some (ni, nj) => if h.nr - 1 ≤ ni ∨ h.nc - 1 ≤ nj then none else walk big h ray maxToi solid maxT fuel (ni, nj)
+      | some c => walk big h ray maxToi solid maxT fuel c
 
 /-- `HeightField::cast_local_ray_and_get_normal` (3-D).
 **Corrected behaviour** (fixes/C04-heightfield-ray-start-cell.diff): the start cell is the cell closest to the point where
